@@ -180,9 +180,10 @@ theorem findSub_append {d : Bytes} : ∀ {h : Bytes} {i : Nat} (x : Bytes), find
           apply List.isPrefixOf_iff_prefix.mpr
           have h2 : a :: t <+: a :: (t ++ x) := by
             have := List.prefix_append (a :: t) x
-            simpa using this
+            simp at this
+            simp
           exact List.prefix_of_prefix_length_le hp' h2 (by simp only [List.length_cons]; omega)
-        simp only [hnp', if_false]
+        simp only [hnp']
         rw [findSub_append x hfs]
         simp [hh]
 
@@ -472,7 +473,7 @@ theorem step_spec {c : Client σ} {cap : Nat} {rd : Reader} {s : σ} {ks : List 
     by_cases h0 : len = 0
     · subst h0
       simp only [step, hav, if_true]
-      refine ⟨hi, by intro h; cases h, ?_⟩
+      refine ⟨hi, (by intro h; cases h), ?_⟩
       intro _ rest t _
       rw [List.append_assoc, Spec.run_take_zero (next_of_avail hi hav _)]
       rfl
@@ -492,7 +493,7 @@ theorem step_spec {c : Client σ} {cap : Nat} {rd : Reader} {s : σ} {ks : List 
         simp
       by_cases hcl : (c.deliver s (slice rd.buf rd.r (rd.r + len))).2 = true
       · simp only [step, hav, h0, if_false, hcl, if_true]
-        refine ⟨advance_inv hi hle, by intro h; cases h, ?_⟩
+        refine ⟨advance_inv hi hle, (by intro h; cases h), ?_⟩
         intro _ rest t _
         rw [List.append_assoc, Spec.run_take (hnext _) h0, htake, if_pos hcl]
         rfl
@@ -507,7 +508,7 @@ theorem step_spec {c : Client σ} {cap : Nat} {rd : Reader} {s : σ} {ks : List 
     have hu1 := prep_unread (need (c.want s) rd) hi
     by_cases hsm : cap - (prep cap rd (need (c.want s) rd)).w < need (c.want s) rd
     · simp only [step, hav, hsm, if_true]
-      refine ⟨hi1, by intro h; cases h, ?_⟩
+      refine ⟨hi1, (by intro h; cases h), ?_⟩
       intro _ rest t _
       rw [List.append_assoc, Spec.run_tooMuch (next_tooMuch hi hav ((prep_small hi).mp hsm) _)]
       rfl
@@ -528,16 +529,16 @@ theorem step_spec {c : Client σ} {cap : Nat} {rd : Reader} {s : σ} {ks : List 
         | wouldBlock =>
           simp only at hks
           simp only [step, hav, hsm, if_false, hk]
-          refine ⟨hi1, ?_, by intro h; exact absurd rfl h⟩
+          refine ⟨hi1, ?_, (by intro h; exact absurd rfl h)⟩
           intro _
-          refine ⟨hks.2, hks.1, rfl, rfl, hu1, ?_⟩
+          refine ⟨hks.2, hks.1, rfl, trivial, hu1, ?_⟩
           simp only [Drained]
           rw [hu1]
           exact next_needMore hi hav hns
         | eof =>
           simp only at hks
           simp only [step, hav, hsm, if_false, hk]
-          refine ⟨hi1, by intro h; cases h, ?_⟩
+          refine ⟨hi1, (by intro h; cases h), ?_⟩
           intro _ rest t ht
           obtain ⟨rfl, rfl⟩ := ht (by rw [hks.2]; intro h; cases h)
           rw [hks.1, hks.2, List.append_nil, List.append_nil, Spec.run_needMore (next_needMore hi hav hns)]
@@ -545,10 +546,217 @@ theorem step_spec {c : Client σ} {cap : Nat} {rd : Reader} {s : σ} {ks : List 
         | err =>
           simp only at hks
           simp only [step, hav, hsm, if_false, hk]
-          refine ⟨hi1, by intro h; cases h, ?_⟩
+          refine ⟨hi1, (by intro h; cases h), ?_⟩
           intro _ rest t ht
           obtain ⟨rfl, rfl⟩ := ht (by rw [hks.2]; intro h; cases h)
           rw [hks.1, hks.2, List.append_nil, List.append_nil, Spec.run_needMore (next_needMore hi hav hns)]
           rfl
+
+
+/-! ## one `go_reading` against the specification -/
+
+theorem goReading_spec {c : Client σ} {cap : Nat} {rd : Reader} {s : σ} {ks : List KRes} (hi : Inv cap rd) :
+    Inv cap (goReading c cap rd s ks).rd ∧
+    ((goReading c cap rd s ks).out = .wouldBlock →
+        evFin ks = .none ∧ Drained c cap (goReading c cap rd s ks).rd (goReading c cap rd s ks).s ∧
+        ∀ rest t, Spec.run c cap s (rd.unread ++ evBytes ks ++ rest) t =
+          prepend (deliveries (goReading c cap rd s ks).obs)
+            (Spec.run c cap (goReading c cap rd s ks).s ((goReading c cap rd s ks).rd.unread ++ rest) t)) ∧
+    ((goReading c cap rd s ks).out ≠ .wouldBlock →
+        ∀ rest t, (evFin ks ≠ .none → rest = [] ∧ t = evFin ks) →
+          Spec.run c cap s (rd.unread ++ evBytes ks ++ rest) t =
+            (deliveries (goReading c cap rd s ks).obs, (goReading c cap rd s ks).out)) := by
+  fun_induction goReading c cap rd s ks with
+  | case1 rd s ks obs rd' s' out ks' hst =>
+    have hs := step_spec (c := c) (s := s) (ks := ks) hi
+    rw [hst] at hs
+    simp only at hs
+    obtain ⟨h1, h2, h3⟩ := hs
+    refine ⟨h1, ?_, h3⟩
+    intro hw
+    obtain ⟨a, b, d, e, f, g⟩ := h2 hw
+    refine ⟨a, g, ?_⟩
+    intro rest t
+    rw [b, d, f, e]
+    simp
+  | case2 rd s ks obs rd' s' ks' hst res ih =>
+    have hs := step_spec (c := c) (s := s) (ks := ks) hi
+    rw [hst] at hs
+    simp only at hs
+    obtain ⟨h1, h2, h3⟩ := hs
+    obtain ⟨i1, i2, i3⟩ := ih h1
+    refine ⟨i1, ?_, ?_⟩
+    · intro hw
+      obtain ⟨a, g, e⟩ := i2 hw
+      refine ⟨by rw [← h2]; exact a, g, ?_⟩
+      intro rest t
+      rw [h3, e, deliveries_append, prepend_append]
+    · intro hw rest t ht
+      rw [h3, i3 hw rest t (by rw [h2]; exact ht), deliveries_append]
+      rfl
+
+
+/-! ## a connection's run against the specification -/
+
+theorem runEvents_spec {c : Client σ} {cap : Nat} : ∀ {evs : List (List KRes)} {rd : Reader} {s : σ},
+    Inv cap rd → (evs = [] → Drained c cap rd s) →
+    Spec.run c cap s (rd.unread ++ bytes evs) (terminal evs) = observable (runEvents c cap rd s evs)
+  | [], rd, s, _, hd => by
+    simp only [bytes, terminal, List.append_nil, runEvents, observable, deliveries]
+    rw [Spec.run_needMore (hd rfl)]
+    rfl
+  | ev :: evs, rd, s, hi, _ => by
+    obtain ⟨h1, h2, h3⟩ := goReading_spec (c := c) (s := s) (ks := ev) hi
+    simp only [runEvents]
+    split
+    · rename_i hw
+      obtain ⟨a, g, e⟩ := h2 hw
+      have ih := runEvents_spec (c := c) (evs := evs) h1 (fun _ => g)
+      simp only [bytes, terminal, a, if_true]
+      rw [← List.append_assoc, e, ih]
+      simp only [observable, prepend, deliveries_append]
+    · rename_i hnw
+      have hnw' : (goReading c cap rd s ev).out ≠ .wouldBlock := fun h => hnw h
+      simp only [bytes, terminal]
+      rw [← List.append_assoc, h3 hnw']
+      · rfl
+      · intro hf
+        simp [hf]
+
+theorem runEvents_inv {c : Client σ} {cap : Nat} : ∀ {evs : List (List KRes)} {rd : Reader} {s : σ},
+    Inv cap rd → Inv cap (runEvents c cap rd s evs).rd
+  | [], _, _, hi => by simpa [runEvents] using hi
+  | ev :: evs, rd, s, hi => by
+    obtain ⟨h1, _, _⟩ := goReading_spec (c := c) (s := s) (ks := ev) hi
+    simp only [runEvents]
+    split
+    · exact runEvents_inv h1
+    · exact h1
+
+/-- `prompt`: whenever a run is still open, nothing deliverable is left in the buffer. -/
+theorem runEvents_drained {c : Client σ} {cap : Nat} : ∀ {evs : List (List KRes)} {rd : Reader} {s : σ},
+    Inv cap rd → (evs = [] → Drained c cap rd s) → (runEvents c cap rd s evs).out = .wouldBlock →
+    Drained c cap (runEvents c cap rd s evs).rd (runEvents c cap rd s evs).s
+  | [], _, _, _, hd, _ => by simpa [runEvents] using hd rfl
+  | ev :: evs, rd, s, hi, _, ho => by
+    obtain ⟨h1, h2, _⟩ := goReading_spec (c := c) (s := s) (ks := ev) hi
+    simp only [runEvents] at ho ⊢
+    split at ho
+    · rename_i hw
+      obtain ⟨_, g, _⟩ := h2 hw
+      exact runEvents_drained h1 (fun _ => g) ho
+    · rename_i hnw
+      exact absurd ho hnw
+
+/-! ## pointer discipline -/
+
+theorem step_ok {c : Client σ} {cap : Nat} {rd : Reader} {s : σ} {ks : List KRes} (hi : Inv cap rd) :
+    match step c cap rd s ks with
+    | .more obs _ _ _ => ∀ o ∈ obs, Obs.ok cap o
+    | .done obs _ _ _ _ => ∀ o ∈ obs, Obs.ok cap o := by
+  have hw := hi.wc; have hr := hi.rw
+  cases hav : avail (c.want s) rd with
+  | some len =>
+    have hle := avail_le hav
+    by_cases h0 : len = 0
+    · subst h0
+      simp only [step, hav, if_true]
+      intro o ho
+      simp only [List.mem_singleton] at ho
+      subst ho; trivial
+    · have hb := advance_slice_length hi hle
+      by_cases hcl : (c.deliver s (slice rd.buf rd.r (rd.r + len))).2 = true
+      · simp only [step, hav, h0, if_false, hcl, if_true]
+        intro o ho
+        simp only [List.mem_cons, List.not_mem_nil, or_false] at ho
+        rcases ho with rfl | rfl
+        · simp only [Obs.ok, hb]; omega
+        · trivial
+      · simp only [step, hav, h0, if_false, hcl]
+        intro o ho
+        simp only [List.mem_singleton] at ho
+        subst ho
+        simp only [Obs.ok, hb]; omega
+  | none =>
+    have hnp := need_pos hav
+    have hi1 := prep_inv (need (c.want s) rd) hi
+    have hw1 := hi1.wc; have hr1 := hi1.rw
+    by_cases hsm : cap - (prep cap rd (need (c.want s) rd)).w < need (c.want s) rd
+    · simp only [step, hav, hsm, if_true]
+      intro o ho
+      simp only [List.mem_singleton] at ho
+      subst ho; trivial
+    · have hasked : 0 < cap - (prep cap rd (need (c.want s) rd)).w := by omega
+      cases hk : kread (cap - (prep cap rd (need (c.want s) rd)).w) ks with
+      | mk g ks' =>
+        have hks := kread_spec hasked hk
+        cases g with
+        | data b =>
+          simp only at hks
+          obtain ⟨hne, hbl, _, _⟩ := hks
+          have : 0 < b.length := by
+            cases b with
+            | nil => exact absurd rfl hne
+            | cons _ _ => simp
+          simp only [step, hav, hsm, if_false, hk]
+          intro o ho
+          simp only [List.mem_singleton] at ho
+          subst ho
+          simp only [Obs.ok, true_and]
+          omega
+        | wouldBlock =>
+          simp only [step, hav, hsm, if_false, hk]
+          intro o ho
+          simp only [List.mem_singleton] at ho
+          subst ho
+          simp only [Obs.ok, and_true]
+          omega
+        | eof =>
+          simp only [step, hav, hsm, if_false, hk]
+          intro o ho
+          simp only [List.mem_cons, List.not_mem_nil, or_false] at ho
+          rcases ho with rfl | rfl
+          · simp only [Obs.ok, and_true]; omega
+          · trivial
+        | err =>
+          simp only [step, hav, hsm, if_false, hk]
+          intro o ho
+          simp only [List.mem_cons, List.not_mem_nil, or_false] at ho
+          rcases ho with rfl | rfl
+          · simp only [Obs.ok, and_true]; omega
+          · trivial
+
+theorem goReading_ok {c : Client σ} {cap : Nat} {rd : Reader} {s : σ} {ks : List KRes} (hi : Inv cap rd) :
+    ∀ o ∈ (goReading c cap rd s ks).obs, Obs.ok cap o := by
+  fun_induction goReading c cap rd s ks with
+  | case1 rd s ks obs rd' s' out ks' hst =>
+    have hs := step_ok (c := c) (s := s) (ks := ks) hi
+    rw [hst] at hs
+    exact hs
+  | case2 rd s ks obs rd' s' ks' hst res ih =>
+    have hs := step_ok (c := c) (s := s) (ks := ks) hi
+    have hsp := step_spec (c := c) (s := s) (ks := ks) hi
+    rw [hst] at hs hsp
+    simp only at hs hsp
+    intro o ho
+    simp only [List.mem_append] at ho
+    rcases ho with ho | ho
+    · exact hs o ho
+    · exact ih hsp.1 o ho
+
+theorem runEvents_ok {c : Client σ} {cap : Nat} : ∀ {evs : List (List KRes)} {rd : Reader} {s : σ},
+    Inv cap rd → ∀ o ∈ (runEvents c cap rd s evs).obs, Obs.ok cap o
+  | [], _, _, _ => by simp [runEvents]
+  | ev :: evs, rd, s, hi => by
+    obtain ⟨h1, _, _⟩ := goReading_spec (c := c) (s := s) (ks := ev) hi
+    have hok := goReading_ok (c := c) (s := s) (ks := ev) hi
+    simp only [runEvents]
+    split
+    · intro o ho
+      simp only [List.mem_append] at ho
+      rcases ho with ho | ho
+      · exact hok o ho
+      · exact runEvents_ok h1 o ho
+    · exact hok
 
 end Cjet.Bufread
